@@ -14,7 +14,17 @@ import (
 func init() {
 	vu.Register("C06", &vu.Prop{
 		Gen: func(r *rand.Rand, n int, tier string, emit func(...string)) {
+			nextMany := 3
 			for i := 0; i < n; {
+				if i >= nextMany { // size class many-branches: 3 per quick run
+					emit(c05ManyBranches(r)...)
+					i++
+					nextMany += 20
+					if tier == "thorough" {
+						nextMany -= 10
+					}
+					continue
+				}
 				if r.Intn(5) == 0 { // one Index for two epochs with different validator sets
 					emit(c05TwoEpochs(r, tier)...)
 					i++
